@@ -153,7 +153,7 @@ public:
 
 
     const T& operator[] (const size_t index) const {
-        if (index + 1 > rank) {
+        if (index >= rank) {
             throw std::out_of_range ("Index out of bounds");
         }
         return dims[index];
